@@ -9,6 +9,7 @@ import (
 	"strings"
 
 	"github.com/php-any/origami/data"
+	"github.com/php-any/origami/verifsim"
 )
 
 // SimConn is the simulated connection behind a request: an
@@ -26,6 +27,7 @@ type SimConn struct {
 	FailWriteAt int  // 1-based index of the Write call that returns an error (0: never)
 	Strict      bool // like net/http: refuse a body for 1xx/204/304
 	Failed      int  // how many writes were failed
+	Stall       bool // slow client: every Write is a scheduling point (the server task parks in it)
 }
 
 type Commit struct {
@@ -44,6 +46,9 @@ func (c *SimConn) WriteHeader(code int) {
 var ErrInjectedWrite = errors.New("verif: injected client write error")
 
 func (c *SimConn) Write(p []byte) (int, error) {
+	if c.Stall {
+		verifsim.Gate()
+	}
 	c.Writes++
 	if len(c.Commits) == 0 && !c.Implicit {
 		c.Implicit = true
